@@ -137,6 +137,21 @@ def _tolerated_like_ok(fn, call, value):
             if c is not None and any(x.get("id") == call.get("id") for x in walk(c)):
                 sw = b
     if sw is None:
+        # the if-form: one condition tests the result against CIF_OK and against the tolerated code with the same operator
+        # (`result != CIF_OK && result != CIF_NULL_LOOP` / `result == CIF_OK || result == CIF_NULL_LOOP`)
+        after = cfgq.reach(fn, [b_.id for b_ in fn.blocks.values() if any(x.get("id") == call.get("id") for r_ in b_.roots for x in walk(r_))] or [fn.entry])
+        for b_ in fn.blocks.values():
+            if b_.id not in after or not b_.term or not isinstance(b_.term.get("full"), dict):
+                continue
+            ops = {}
+            for x in walk(b_.term["full"]):
+                if isinstance(x, dict) and x.get("k") == "bin" and x.get("op") in ("==", "!="):
+                    for side in ("lhs", "rhs"):
+                        c_ = const(x.get(side))
+                        if c_ is not None:
+                            ops.setdefault(x["op"], set()).add(c_)
+            if any(0 in v and value in v for v in ops.values()):
+                return None
         return "no switch on the result of this call was found"
     labels = {}
     for s_ in sw.succs:
@@ -165,6 +180,31 @@ def _tolerated_like_ok(fn, call, value):
         from ..facts import show as _show
         return "its arm executes `%s`" % _show(blk.roots[0])[:50]
     return "its arm does not join the arm of CIF_OK"
+
+
+def _tested_locally(fn, value, at=None):
+    """every path from the assignment (block id `at`) to the exit passes a test of a variable against this very code (a switch
+    with a case label for it, or an == / != comparison): the value is a local sentinel that the function dispatches on"""
+    tests = set()
+    for b in fn.blocks.values():
+        if b.term and b.term.get("k") == "SwitchStmt":
+            if any(s_ is not None and fn.blocks[s_].label and fn.blocks[s_].label.get("k") == "case"
+                   and fn.blocks[s_].label.get("v") == value for s_ in b.succs):
+                tests.add(b.id)
+        c = cfgq.cond_of(fn, b) if len(b.succs) == 2 else None
+        if c is not None and any(isinstance(x, dict) and x.get("k") == "bin" and x.get("op") in ("==", "!=")
+                                 and value in (const(x.get("lhs")), const(x.get("rhs"))) for x in walk(c)):
+            tests.add(b.id)
+    if not tests or at is None:
+        return False
+    if at in tests:
+        return True
+    try:
+        # paths consistent with the zero / non-zero facts of the branches taken (the code just assigned is not CIF_OK)
+        found = cfgq.fact_reach(fn, [at], barriers=tests)
+    except Exception:
+        return False
+    return fn.exit not in found
 
 
 def tolerated_codes(prog, rule):
@@ -248,6 +288,8 @@ def run(prog, chk):
                     r2a.ok(key + "@L%s" % nn.get("l"), "resource/internal")
                 elif nn.get("k") == "decl" and m == "CIF_ERROR":
                     r2a.ok(key, "FAILURE_HANDLING initial value")
+                elif nn.get("k") == "asg" and _tested_locally(fn, codes[m], b.id):
+                    r2a.ok(key + "@L%s" % nn.get("l"), "a local sentinel: the function compares the variable with this very code")
                 else:
                     r2a.violation(fn.file, fname, nn.get("l"), "originates:" + key,
                                   "%s produces %s directly without reporting it to the error callback" % (fname, m))
